@@ -376,13 +376,27 @@ pub fn gen_stepenv_script(id: usize, rng: &mut Sm, n_calls: usize) -> GenOut {
 // C19 expectations: the documented layouts
 // ---------------------------------------------------------------------------------------------
 
-fn doc_level1(env: &Env) -> Vec<u32> {
-    let d = env.level_2_data();
-    vec![env.get_orderbook().get_trade_vol(), d.bid_price, d.ask_price, d.bid_vol, d.ask_vol, d.bid_price_levels[0].0, d.bid_price_levels[0].1, d.ask_price_levels[0].0, d.ask_price_levels[0].1]
+/// Traded volume per step recomputed from the trade log alone: trades stamped in [start_j, start_j + step_size).
+/// Independent of the environment's own counter, so a counter that is not reset (or reset late) shows.
+fn traded_per_step(env: &Env, t0: u64, step_size: u64) -> Vec<u32> {
+    let now = env.get_orderbook().get_time();
+    let k = ((now - t0) / step_size) as usize;
+    let mut v = vec![0u32; k];
+    for t in env.get_trades() {
+        let j = ((t.t - t0) / step_size) as usize;
+        if j < k {
+            v[j] += t.vol;
+        }
+    }
+    v
 }
-fn doc_level2(env: &Env) -> Vec<u32> {
+fn doc_level1(env: &Env, traded: u32) -> Vec<u32> {
     let d = env.level_2_data();
-    let mut v = vec![env.get_orderbook().get_trade_vol(), d.bid_price, d.ask_price, d.bid_vol, d.ask_vol];
+    vec![traded, d.bid_price, d.ask_price, d.bid_vol, d.ask_vol, d.bid_price_levels[0].0, d.bid_price_levels[0].1, d.ask_price_levels[0].0, d.ask_price_levels[0].1]
+}
+fn doc_level2(env: &Env, traded: u32) -> Vec<u32> {
+    let d = env.level_2_data();
+    let mut v = vec![traded, d.bid_price, d.ask_price, d.bid_vol, d.ask_vol];
     for i in 0..10 {
         v.push(d.bid_price_levels[i].0);
         v.push(d.bid_price_levels[i].1);
@@ -395,14 +409,14 @@ fn is_asym(env: &Env) -> bool {
     let d = env.level_2_data();
     d.bid_vol != d.ask_vol && d.bid_price_levels[0] != d.ask_price_levels[0] && d.bid_vol > 0 && d.ask_vol > 0
 }
-fn market_data_expect(env: &Env) -> Value {
+fn market_data_expect(env: &Env, traded: &[u32]) -> Value {
     let h = env.get_level_2_data_history();
     let mut m = serde_json::Map::new();
     m.insert("bid_price".into(), json!(h.prices.0));
     m.insert("ask_price".into(), json!(h.prices.1));
     m.insert("bid_vol".into(), json!(h.volumes.0));
     m.insert("ask_vol".into(), json!(h.volumes.1));
-    m.insert("trade_vol".into(), json!(env.get_trade_vols()));
+    m.insert("trade_vol".into(), json!(traded));
     for i in 0..10 {
         m.insert(format!("bid_vol_{}", i), json!(h.volumes_at_levels.0[i]));
         m.insert(format!("ask_vol_{}", i), json!(h.volumes_at_levels.1[i]));
@@ -414,6 +428,8 @@ fn market_data_expect(env: &Env) -> Value {
 }
 
 pub struct LayoutStats {
+    pub quiet_steps: usize,
+    pub steps_that_traded: usize,
     pub states: usize,
     pub asym_states: usize,
     pub keys: Vec<u64>,
@@ -432,11 +448,16 @@ pub fn gen_layout_script(id: usize, rng: &mut Sm, numpy_env: bool, st: &mut Layo
     let n_steps = rng.range(2, 12);
     let mut reenable = false;
     let layout = |m: &str, v: Vec<u32>, asym: bool| -> Value { json!({"m": m, "args": [], "kwargs": {}, "expect": {"v": v}, "layout": true, "asym": asym}) };
-    for _ in 0..n_steps {
+    for step_no in 0..n_steps {
+        // a fifth of the steps (never the first) are quiet: nothing at all is submitted, so the step runs on an empty queue
+        let quiet = step_no > 0 && rng.chance(0.2);
+        if quiet {
+            st.quiet_steps += 1;
+        }
         // asymmetric by construction: different counts and volumes on the two sides, several levels
-        let ladder = rng.chance(0.25);
-        let nb = if ladder { 12 } else { rng.range(0, 7) as usize };
-        let na = if ladder { 12 } else { rng.range(0, 7) as usize };
+        let ladder = !quiet && rng.chance(0.25);
+        let nb = if quiet { 0 } else if ladder { 12 } else { rng.range(0, 7) as usize };
+        let na = if quiet { 0 } else if ladder { 12 } else { rng.range(0, 7) as usize };
         let mut sides = Vec::new();
         let mut vols = Vec::new();
         let mut traders = Vec::new();
@@ -454,9 +475,10 @@ pub fn gen_layout_script(id: usize, rng: &mut Sm, numpy_env: bool, st: &mut Layo
         }
         // cancels of active orders
         let act: Vec<usize> = env.get_orders().iter().filter(|o| o.status == bourse_book::types::Status::Active).map(|o| o.order_id).collect();
-        let n_cancel = if act.is_empty() { 0 } else { rng.below(3.min(act.len() as u64 + 1)) as usize };
+        let n_cancel = if act.is_empty() || quiet { 0 } else { rng.below(3.min(act.len() as u64 + 1)) as usize };
         let cancels: Vec<usize> = (0..n_cancel).map(|_| *rng.pick(&act)).collect();
-        if numpy_env {
+        if quiet {
+        } else if numpy_env {
             if rng.chance(0.5) {
                 // submit_limit_orders + submit_cancellations
                 let mut ids = Vec::new();
@@ -564,22 +586,28 @@ pub fn gen_layout_script(id: usize, rng: &mut Sm, numpy_env: bool, st: &mut Layo
             reenable = false;
         }
         let asym = is_asym(&env);
+        let traded = traded_per_step(&env, t0, step_size);
+        let last_traded = *traded.last().unwrap_or(&0);
+        if last_traded > 0 {
+            st.steps_that_traded += 1;
+        }
         st.states += 1;
         if asym {
             st.asym_states += 1;
             let mut h = Fnv::new();
-            h.bytes(format!("{:?}{}", doc_level2(&env), numpy_env).as_bytes());
+            h.bytes(format!("{:?}{}", doc_level2(&env, last_traded), numpy_env).as_bytes());
             st.keys.push(h.finish());
         }
         if numpy_env {
-            calls.push(layout("level_1_data", doc_level1(&env), asym));
-            calls.push(layout("level_2_data", doc_level2(&env), asym));
+            calls.push(layout("level_1_data", doc_level1(&env, last_traded), asym));
+            calls.push(layout("level_2_data", doc_level2(&env, last_traded), asym));
         } else {
-            calls.push(layout("level_1_data_array", doc_level1(&env), asym));
-            calls.push(layout("level_2_data_array", doc_level2(&env), asym));
+            calls.push(layout("level_1_data_array", doc_level1(&env, last_traded), asym));
+            calls.push(layout("level_2_data_array", doc_level2(&env, last_traded), asym));
         }
     }
-    calls.push(json!({"m": "get_market_data", "args": [], "kwargs": {}, "expect": market_data_expect(&env)}));
+    let traded = traded_per_step(&env, t0, step_size);
+    calls.push(json!({"m": "get_market_data", "args": [], "kwargs": {}, "expect": market_data_expect(&env, &traded)}));
     if !numpy_env {
         // one order left unplaced (status New) for the data-frame helpers
         let i = env.place_order(side_of(false), 3, 2, Some((center * tick as u64) as u32 + 20 * tick)).unwrap();
@@ -589,7 +617,7 @@ pub fn gen_layout_script(id: usize, rng: &mut Sm, numpy_env: bool, st: &mut Layo
         calls.push(call("get_volumes", json!([]), json!({}), json!({"v": [h.volumes.0, h.volumes.1]})));
         calls.push(call("get_touch_volumes", json!([]), json!({}), json!({"v": [h.volumes_at_levels.0[0], h.volumes_at_levels.1[0]]})));
         calls.push(call("get_touch_order_counts", json!([]), json!({}), json!({"v": [h.orders_at_levels.0[0], h.orders_at_levels.1[0]]})));
-        calls.push(call("get_trade_volumes", json!([]), json!({}), json!({"v": env.get_trade_vols()})));
+        calls.push(call("get_trade_volumes", json!([]), json!({}), json!({"v": traded})));
     }
     calls.push(call("get_orders", json!([]), json!({}), json!({"v": orders_json(env.get_orderbook())})));
     calls.push(call("get_trades", json!([]), json!({}), json!({"v": trades_json(env.get_orderbook())})));
@@ -739,7 +767,7 @@ pub fn c19(ctx: &Ctx) -> i32 {
     let n_scripts = ctx.tier.pick(2000, 25_000);
     let mut rng = Sm::derive(ctx.seed, 0xC19);
     let mut scripts = Vec::new();
-    let mut st = LayoutStats { states: 0, asym_states: 0, keys: Vec::new() };
+    let mut st = LayoutStats { quiet_steps: 0, steps_that_traded: 0, states: 0, asym_states: 0, keys: Vec::new() };
     for i in 0..n_scripts {
         scripts.push(gen_layout_script(i, &mut rng, i % 2 == 1, &mut st));
     }
@@ -781,16 +809,20 @@ pub fn c19(ctx: &Ctx) -> i32 {
             ("asymmetric_layout_checks", r["asymmetric_layout_checks"].as_u64().unwrap_or(0), 1000),
             ("dict_checks", r["dict_checks"].as_u64().unwrap_or(0), 200),
             ("dataframe_checks", r["dataframe_checks"].as_u64().unwrap_or(0), 200),
+            ("quiet_steps", st.quiet_steps as u64, 200),
+            ("steps_that_traded", st.steps_that_traded as u64, 200),
         ]);
     }
     let cov = json!({
         "evaluations": r["executed"].as_u64().unwrap_or(0),
         "distinct_nontrivial": d.len(),
-        "rule": "cases = Python calls on StepEnv and StepEnvNumpy executed on the real extension with numpy: after each step of a random asymmetric book (different counts, volumes and levels on the two sides) all four array-returning methods are compared element by element with the documented layout (traded volume, bid price, ask price, bid volume, ask volume, then per level bid volume, bid count, ask volume, ask count; lengths 9 and 45) filled from the Rust core; get_market_data must have exactly the 45 documented keys, each bound to the matching recorded series; history getters; both data-frame helpers are run against a stub pandas and every column must be named after (and hold) its field; the documented index tables are parsed from the live docstrings and must equal the checker's; distinct = distinct asymmetric (state, environment class) pairs; non-trivial = bid and ask totals and touch records differ",
+        "rule": "cases = Python calls on StepEnv and StepEnvNumpy executed on the real extension with numpy: after each step of a random asymmetric book (different counts, volumes and levels on the two sides) all four array-returning methods are compared element by element with the documented layout (traded volume, bid price, ask price, bid volume, ask volume, then per level bid volume, bid count, ask volume, ask count; lengths 9 and 45) filled from the Rust core, the traded volume of a step recomputed from the trade log (trades stamped inside the step) rather than read from the environment's counter; a fifth of the steps submit nothing at all; get_market_data must have exactly the 45 documented keys, each bound to the matching recorded series; history getters; both data-frame helpers are run against a stub pandas and every column must be named after (and hold) its field; the documented index tables are parsed from the live docstrings and must equal the checker's; distinct = distinct asymmetric (state, environment class) pairs; non-trivial = bid and ask totals and touch records differ",
         "samples": [sample],
         "scripts": n_scripts,
         "states": st.states,
         "asymmetric_states": st.asym_states,
+        "quiet_steps_with_empty_queue": st.quiet_steps,
+        "steps_that_traded": st.steps_that_traded,
         "layout_checks": r["layout_checks"],
         "asymmetric_layout_checks": r["asymmetric_layout_checks"],
         "dict_checks": r["dict_checks"],
